@@ -19,13 +19,21 @@ normalisation, free/prescribed packing, weighted least-squares step), over an ar
 * `no_change_if_ok`, `no_change_if_ok_U`, `no_change_state`   not forced ∧ entry norm ≤ accuracy ⇒ the state is the
   input state, `anyChangeMade = false`, 0 iterations (and `Succeeded` with exit norm = entry norm unless the projection
   limit is below the entry norm).
-* `skeleton_accepted`, `skeleton_accepted_U`   every run of the skeleton is accepted by the kind-K contract
-  `acceptsQ` / `acceptsU` that the correspondence check applies to the observed `ProjectResults`;
+* `skeleton_accepted`, `skeleton_accepted_U`   every run of the skeleton is accepted by the PATH-AWARE kind-K contract
+  `acceptsQ` / `acceptsU` that the correspondence check applies to the observed `ProjectResults`: the exit is decided
+  from the entry norms exactly as the code decides it (so "ForceProjection ignored" is rejected), and on the Newton
+  path, when no quaternion can fail afterwards, a failure never returns a worse norm than it got and "exit norm = entry
+  norm" means the saved state was written back;
   `accepts_sound`, `accepts_sound_U`   acceptance ∧ Succeeded ⇒ exit norm ≤ accuracy.
-* `normalize_unit`, `errest_orthogonal`   quaternion normalisation.
+* `no_throw_is_success`, `_U`, `defaultOpts_spec`   with the options `System::project(state, acc)` builds (no limit, no
+  DontThrow, accuracy > 0) "did not throw" is "Succeeded".
+* `normalize_unit`, `errest_orthogonal`, `normalizeQuatsMasked_spec`   quaternion normalisation (prescribed skipped).
 * `prescribed_untouched`, `pack_unpack_id`   packing lemmas.
 * `min_norm_of_multiplier`, `min_norm_weighted`, `min_norm_linear`, `min_norm_documented_step`   the weighted
-  least-squares correction is the weighted minimum-norm solution.
+  least-squares correction is the weighted minimum-norm solution (N = identity);
+  `min_norm_step_general`   the same with the coupling matrix: for ANY `S` (the code's `Wq⁺ = N Wu⁻¹ N⁺` restricted to
+  the free columns) the weighted unknown is the minimum-norm solution of `(Pq S) z = perr` and `dq = S z` solves
+  `Pq dq = perr`;  `uRelScale_pos`, `min_norm_relative_scaling`   projectU minimises `Σ (du_j / uRelScale_j)²`.
 
 PARTIAL (named here, not silently weakened): convergence of the Newton iteration itself is numerical and is not a
 theorem; the oracle hides the Jacobian / QTZ pseudo-inverse / realizePosition.  `success_sound` speaks about the
